@@ -121,17 +121,7 @@ def run(rep):
         return out
 
     # ---------------- select ----------------
-    for i in range(nsel):
-        ds = rng.choice(dsets)
-        if rng.random() < 0.25 and len(ds) > 3:           # also selections of selections / slices
-            try:
-                ds = ds[rng.randrange(len(ds)):] if rng.random() < 0.5 else ds[:max(1, len(ds) // 2)]
-            except Exception:
-                pass
-            if not len(ds):
-                ds = rng.choice(dsets)
-        logic = rng.choice(['AND', 'OR'])
-        crit = gen_criteria(rng, ds, rep)
+    def one_select(ds, logic, crit):
         T = [[truth(p, c) for c in crit] for p in ds]
         rows = [''.join('1' if b else '0' for b in r) or '-' for r in T]
         line = 'c17.select %s %d %s' % (logic, len(crit), ' '.join(rows))
@@ -158,6 +148,33 @@ def run(rep):
         rep.hist('select.result', 'empty' if not spec_idx else ('all' if len(spec_idx) == len(ds) else 'some'))
         if logic == 'OR' and any(sum(r) > 1 for r in T):
             rep.hist('select.overlap', 'point satisfies >1 criterion')
+
+
+    for i in range(nsel):
+        ds = rng.choice(dsets)
+        if rng.random() < 0.25 and len(ds) > 3:           # also selections of selections / slices
+            try:
+                ds = ds[rng.randrange(len(ds)):] if rng.random() < 0.5 else ds[:max(1, len(ds) // 2)]
+            except Exception:
+                pass
+            if not len(ds):
+                ds = rng.choice(dsets)
+        whole = ds
+        logic = rng.choice(['AND', 'OR'])
+        crit = gen_criteria(rng, ds, rep)
+        one_select(ds, logic, crit)
+        # the SAME criteria and logic on a related dataset right afterwards (a part of it, the whole it came from,
+        # every other point): selections must not remember earlier ones
+        if rng.random() < 0.35 and len(ds) > 2:
+            rel = rng.choice(['tail', 'stride', 'again', 'head'])
+            try:
+                ds2 = {'tail': lambda: ds[rng.randrange(1, len(ds)):], 'stride': lambda: ds[::2], 'again': lambda: ds,
+                       'head': lambda: ds[:len(ds) // 2]}[rel]()
+            except Exception:
+                ds2 = None
+            if ds2 is not None and len(ds2):
+                rep.hist('select.repeat', rel)
+                one_select(ds2, logic, crit)
 
     # ---------------- slices ----------------
     def rnd_bound(n):
